@@ -142,12 +142,14 @@ mod protected {
                     arr.resize(size_hint, 0);
 
                     while let Some(elem) = seq.next_element()? {
-                        if idx > arr.len() {
-                            arr.resize(idx, 0);
+                        if idx >= arr.len() {
+                            arr.resize(idx + 1, 0);
                         }
                         arr[idx] = elem;
                         idx += 1;
                     }
+                    // the size hint is only a hint: keep exactly the elements that were read
+                    arr.resize(idx, 0);
 
                     Ok(arr)
                 }
@@ -188,12 +190,14 @@ mod protected {
                     arr.resize(size_hint, 0);
 
                     while let Some(elem) = seq.next_element()? {
-                        if idx > arr.len() {
-                            arr.resize(idx, 0);
+                        if idx >= arr.len() {
+                            arr.resize(idx + 1, 0);
                         }
                         arr[idx] = elem;
                         idx += 1;
                     }
+                    // the size hint is only a hint: keep exactly the elements that were read
+                    arr.resize(idx, 0);
 
                     Ok(arr)
                 }
